@@ -65,6 +65,9 @@ Definition fp_eqb (a b : fp) : bool :=
   Bool.eqb (fp_pre a) (fp_pre b) && Bool.eqb (fp_post a) (fp_post b) &&
   Bool.eqb (fp_owninit a) (fp_owninit b) &&
   option_eqb Bool.eqb (fp_hashes a) (fp_hashes b) &&
+  option_eqb (list_eqb (fun x y => String.eqb (fst x) (fst y) &&
+                                   option_eqb str_list_eqb (snd x) (snd y)))
+             (fp_initconv a) (fp_initconv b) &&
   list_eqb assign_eqb (fp_assign a) (fp_assign b).
 
 Definition fprint_eqb (a b : fprint) : bool :=
@@ -99,10 +102,12 @@ Definition fp_eqb_m (a b : fp) : bool :=
   list_eqb ffp_eqb_m (fp_fields a) (fp_fields b) &&
   fp_eqb {| fp_fields := []; fp_hash := fp_hash a; fp_eq := fp_eq a; fp_init := fp_init a;
             fp_sig := fp_sig a; fp_pre := fp_pre a; fp_post := fp_post a;
-            fp_owninit := fp_owninit a; fp_hashes := fp_hashes a; fp_assign := fp_assign a |}
+            fp_owninit := fp_owninit a; fp_hashes := fp_hashes a; fp_initconv := fp_initconv a;
+            fp_assign := fp_assign a |}
          {| fp_fields := []; fp_hash := fp_hash b; fp_eq := fp_eq b; fp_init := fp_init b;
             fp_sig := fp_sig b; fp_pre := fp_pre b; fp_post := fp_post b;
-            fp_owninit := fp_owninit b; fp_hashes := fp_hashes b; fp_assign := fp_assign b |}.
+            fp_owninit := fp_owninit b; fp_hashes := fp_hashes b; fp_initconv := fp_initconv b;
+            fp_assign := fp_assign b |}.
 
 Definition fprint_eqb_m (a b : fprint) : bool :=
   match a, b with
